@@ -69,6 +69,26 @@ let verdict_of (param : string) (arg : string) (impl : string) : string =
        let bytes = bytes_of_hex img in
        (* C03: structural contract *)
        if not (image_wf (nat_of_int (int_of_string nev)) bytes) then fails := "C03:image-violates-structural-contract" :: !fails;
+       (* C03, first clause read against the source: one initialisation per declared variable with a literal
+          initial value (declared names pairwise distinct, no compile-time overrides): that many DEF records *)
+       (match String.split_on_char ' ' arg with
+        | [srchex; "-"; _] ->
+          (match utf8_decode (bytes_of_hex srchex) with
+           | Some cps ->
+             (match p_defs (parse_fuel cps) cps with
+              | POk (decls, _) ->
+                let nms = Stdlib.List.map (fun ((_, n), _) -> n) decls in
+                let distinct = Stdlib.List.length (Stdlib.List.sort_uniq compare nms) = Stdlib.List.length nms in
+                let nlit = Stdlib.List.length (Stdlib.List.filter (fun (_, t) -> match t with TNum (Some _) | TBool (Some _) -> true | _ -> false) decls) in
+                let ndef = ref 0 in
+                let nevi = int_of_string nev in
+                let rec go off = if off + 16 <= Stdlib.List.length bytes then begin
+                    (match Stdlib.List.nth_opt bytes off with Some b when int_of_n b = 2 -> incr ndef | _ -> ()); go (off + 16) end in
+                go (16 * nevi);
+                if distinct && !ndef <> nlit then fails := "C03:initialisations-do-not-match-the-declared-variables-with-a-literal-initial-value" :: !fails
+              | _ -> ())
+           | None -> ())
+        | _ -> ());
        (* C13: built-in ABI and distinct slots among the looked-up names *)
        (match String.split_on_char ' ' arg with
         | [_; _; names] when names <> "-" ->
@@ -91,6 +111,7 @@ let verdict_of (param : string) (arg : string) (impl : string) : string =
                    | Some n' when n' <> n -> fails := "C13:two-names-share-a-slot" :: !fails
                    | _ -> Hashtbl.replace seen slot n)
                 end) uniq;
+            let decls_covered = ref true in
             (* a variable declared with the Report. prefix (or inside the Report block) is a report
                variable, any other declared variable a control variable *)
             (match String.split_on_char ' ' arg with
@@ -102,6 +123,7 @@ let verdict_of (param : string) (arg : string) (impl : string) : string =
                      List.iter (fun ((_, n), _) ->
                          if List.for_all (fun c -> int_of_n c < 128) n then begin
                            let hn = String.concat "" (List.map (fun c -> Printf.sprintf "%02x" (int_of_n c)) n) in
+                           (match List.assoc_opt hn tbl with Some r when r <> "-" -> () | _ -> decls_covered := false);
                            match List.assoc_opt hn tbl with
                            | Some r when r <> "-" && String.length r > 0 ->
                              let want = if has_report_prefix n then 'R' else 'C' in
@@ -115,13 +137,14 @@ let verdict_of (param : string) (arg : string) (impl : string) : string =
                                 fails := "C13:declared-variable-carries-a-name-instead-of-its-declared-initial-value" :: !fails
                               | _ -> ())
                            | _ -> ()
-                         end) decls
+                         end else decls_covered := false) decls
                    | _ -> ())
                 | None -> ())
              | _ -> ());
             let rslots = Hashtbl.fold (fun k _ acc -> if k.[0] = 'R' then int_of_string (String.sub k 1 (String.length k - 1)) :: acc else acc) seen [] in
             let nr = List.length rslots in
-            if List.exists (fun i -> i >= nr) rslots && List.length ns < 140 then fails := "C13:report-slots-not-0..n-1" :: !fails
+            (* (only when every declared name is among the names that were looked up) *)
+            if List.exists (fun i -> i >= nr) rslots && List.length ns < 140 && !decls_covered then fails := "C13:report-slots-not-0..n-1" :: !fails
           end
         | _ -> ())
      | _ -> ());
@@ -142,10 +165,19 @@ let verdict_of (param : string) (arg : string) (impl : string) : string =
            if not (has 0) then fails := "C14:literal-not-in-image" :: !fails
          end
        end else if Model.N.eqb v maxu64 then ()
-       else if accepted then fails := "C14:unencodable-literal-accepted" :: !fails;
+       else if accepted then begin
+         fails := "C14:unencodable-literal-accepted" :: !fails;
+         (* C06: an install message was produced for a constant its immediate field cannot say *)
+         fails := "C06:unrepresentable-constant-emitted-instead-of-an-error" :: !fails end;
        (* in override position: the value became the initial value of exactly the named variable *)
        (match String.split_on_char ' ' arg, String.split_on_char ' ' impl with
-        | [_; ups; names], ["OK"; _; _; look] when ups <> "-" && not (String.contains ups ',') && names <> "-" ->
+        | [_; ups0; names], ["OK"; _; _; look] when ups0 <> "-" && names <> "-" &&
+                                                     (* in a list, the entry that carries the literal is the last one, and no other names its variable *)
+                                                     (let es = String.split_on_char ',' ups0 in
+                                                      let nm e = match String.index_opt e '=' with Some i -> String.sub e 0 i | None -> e in
+                                                      let last = nm (Stdlib.List.nth es (Stdlib.List.length es - 1)) in
+                                                      Stdlib.List.length (Stdlib.List.filter (fun e -> nm e = last) es) = 1) ->
+          let ups = (let es = String.split_on_char ',' ups0 in Stdlib.List.nth es (Stdlib.List.length es - 1)) in
           (match String.index_opt ups '=' with
            | Some i ->
              let tname = String.sub ups 0 i in
